@@ -27,9 +27,54 @@ REPO = os.environ.get("PSX_REPO", "/repo")
 # ---------------------------------------------------------------------------------------------------
 # pattern collection (regenerated from the working tree on every run)
 
+DYNAMIC = []      # pattern expressions that are assembled at run time (filled by collect_patterns)
+HOLE = "(a+)+"     # what an attacker would put into a piece of text that ends up inside a pattern unescaped
+
+
+def _template(node, mod):
+    """a run-time assembled pattern with every unescaped hole replaced by HOLE and every escaped one by 'a';
+    None when the expression is not a recognisable template"""
+    def hole(e):
+        if isinstance(e, ast.Call) and isinstance(e.func, ast.Attribute) and e.func.attr == "escape" and \
+                isinstance(e.func.value, ast.Name) and e.func.value.id == "re":
+            return "a"
+        if isinstance(e, ast.Constant):
+            return str(e.value)
+        v = _const_fold(e, mod)
+        if isinstance(v, (str, int)):
+            return str(v)
+        return HOLE
+    if isinstance(node, ast.BinOp) and isinstance(node.op, ast.Mod) and isinstance(node.left, ast.Constant) and isinstance(node.left.value, str):
+        args = node.right.elts if isinstance(node.right, ast.Tuple) else [node.right]
+        try:
+            return node.left.value % tuple(hole(a) for a in args)
+        except Exception:
+            return None
+    if isinstance(node, ast.JoinedStr):
+        out = ""
+        for v in node.values:
+            out += v.value if isinstance(v, ast.Constant) else hole(v.value)
+        return out
+    if isinstance(node, ast.Call) and isinstance(node.func, ast.Attribute) and node.func.attr == "format" and \
+            isinstance(node.func.value, ast.Constant) and isinstance(node.func.value.value, str):
+        try:
+            return node.func.value.value.format(*[hole(a) for a in node.args], **dict((k.arg, hole(k.value)) for k in node.keywords))
+        except Exception:
+            return None
+    if isinstance(node, ast.BinOp) and isinstance(node.op, ast.Add):
+        a, b = _template(node.left, mod), _template(node.right, mod)
+        if a is None and isinstance(node.left, ast.Constant):
+            a = str(node.left.value)
+        if b is None and isinstance(node.right, ast.Constant):
+            b = str(node.right.value)
+        return (a if a is not None else hole(node.left)) + (b if b is not None else hole(node.right))
+    return None
+
+
 def collect_patterns():
     import importlib
     pats = {}      # pattern string -> list of origins
+    del DYNAMIC[:]
 
     def add(p, origin, ref=None):
         if isinstance(p, re.Pattern):
@@ -52,6 +97,23 @@ def collect_patterns():
                     add(x, "%s.%s[%d]" % (mod.__name__, k, i), [mod.__name__, k, i])
         with open(f) as fh:
             tree = ast.parse(fh.read(), f)
+        in_function = {}
+        for fdef in ast.walk(tree):
+            if isinstance(fdef, (ast.FunctionDef, ast.Lambda)):
+                for sub in ast.walk(fdef):
+                    in_function[id(sub)] = getattr(fdef, "name", "<lambda>")
+
+        def dynamic(e, where, n):
+            """a pattern argument that is not a constant of the module"""
+            fname = in_function.get(id(n))
+            if fname is None:
+                return          # module level: executed at import, the resulting pattern objects are collected above
+            if fname == "_assert_matches_re" and isinstance(e, ast.Name):
+                return          # the shared sink: its callers' pattern lists are collected
+            t = _template(e, mod)
+            DYNAMIC.append({"where": where, "function": fname, "expression": ast.unparse(e)[:200], "instantiated": t})
+            if t is not None:
+                add(t, "run-time pattern at %s: %s" % (where, ast.unparse(e)[:120]))
         for n in ast.walk(tree):
             if not isinstance(n, ast.Call):
                 continue
@@ -62,7 +124,10 @@ def collect_patterns():
                 if n.args and isinstance(n.args[0], ast.Constant) and isinstance(n.args[0].value, str):
                     add(n.args[0].value, where)
                 elif n.args:
-                    add(_const_fold(n.args[0], mod), where)
+                    v = _const_fold(n.args[0], mod)
+                    if v is None:
+                        dynamic(n.args[0], where, n)
+                    add(v, where)
             if isinstance(fn, ast.Attribute) and fn.attr == "_assert_matches_re" and len(n.args) >= 2:
                 lst = n.args[1]
                 if isinstance(lst, (ast.List, ast.Tuple)):
@@ -70,12 +135,17 @@ def collect_patterns():
                         if isinstance(e, ast.Constant) and isinstance(e.value, str):
                             add(e.value, where)
                         else:
-                            add(_const_fold(e, mod), where)
+                            v = _const_fold(e, mod)
+                            if v is None:
+                                dynamic(e, where, n)
+                            add(v, where)
                 else:
                     v = _const_fold(lst, mod)
                     if isinstance(v, (list, tuple)):
                         for x in v:
                             add(x, where)
+                    else:
+                        dynamic(lst, where, n)
     return pats
 
 
@@ -350,6 +420,9 @@ def run(tier, seed):
     known_hits = {}
     errors = []
     nq = 0
+    for d in DYNAMIC:
+        if d["instantiated"] is None:
+            errors.append("pattern assembled at run time at %s (%s) is not a recognisable template: not analysed" % (d["where"], d["expression"]))
     for pat in sorted(pats):
         try:
             wit, info = analyse(pat, cap)
@@ -403,6 +476,7 @@ def run(tier, seed):
         "discharged": len([i for i in infos if i["verdict"].startswith(("no ", "no cycle"))]),
         "patterns": infos,
         "patterns_encoded": sorted(pats),
+        "patterns_assembled_at_run_time": list(DYNAMIC),
         "known_findings_reproduced": known_hits,
         "samples": [{"pattern": i["pattern"], "verdict": i["verdict"], "K_checked": i["K_checked"], "queries": i["queries"],
                      "cyclic_core": i["cyclic_core"], "minterms": i["minterms"]} for i in infos[:6]],
@@ -412,6 +486,8 @@ def run(tier, seed):
         "assumptions": [
             "cost model: CPython's backtracking matcher explores at most the runs of the VM program; anchors are treated as passable (over-approximation)",
             "a witness is reported only if the real `re` engine shows measured exponential growth on prefix + pump^n + suffix",
+            "a pattern assembled inside a function from run-time text (%-format, f-string, str.format, +) is analysed with every hole that is not wrapped in re.escape replaced by "
+            "the text '(a+)+' (document fields are untrusted input); a pattern expression that is not such a template is reported as not analysed (exit 2)",
             "non-regex parsing code (split/rsplit/count/endswith based) is linear by construction of those builtins and is not analysed here",
         ],
     }
